@@ -7,6 +7,7 @@
 * anything else is a checker limitation (the contract then falls back to its bounded stand-in)."""
 import ast, z3
 from .values import *
+from .values import Unknown
 from .symex import (Limitation, PathEnd, ReturnExc, RaiseExc, BreakExc, ContinueExc, Frame, SetV, CharV, CharPair,
                     simplify_bool, TermDict)
 
@@ -106,7 +107,12 @@ def havoc(eng, path, v, name):
     if v is None:
         return None
     if isinstance(v, Obj) and v.kind == "pregex":
-        from .specsym import new_pregex
+        from .specsym import new_pregex, make_value
+        if "_Class__is_negated" in path.fields(v):
+            # an instance of the class layer: any negation flag, any text; its inferred type is whatever the invariant allows
+            obj = make_value(eng, path, name, "classobj", "classobj:Class")
+            path.fields(obj)["_Pregex__type"] = Unknown("inferred type of a class (loop-modified)")
+            return obj
         ty = path.fields(v).get("_Pregex__type")
         tname = getattr(ty, "name", None)
         if tname is None:
